@@ -103,8 +103,50 @@ def run(ctx):  # noqa: C901, PLR0912, PLR0915
     # an object enters the table as a copy that shares nothing with the one the application keeps: the indexed attributes of a
     # resident object change only through update_object (R2), never through a value shared with a copy
     common.copies_are_deep(ctx, 'C11.R2')
+    common.entity_getters_hand_out_copies(ctx, 'C11.R2')
     common.no_mutation_while_iterating(ctx, 'C11.R3', ['sdc11073.multikey', 'sdc11073.mdib.mdibbase'])
     common.table_object_sets_are_private(ctx, 'C11.R1')
+    go1 = repo.func('sdc11073.multikey.IndexDefinition.get_one')
+    gg1 = cfg_of(go1)
+    loose1 = [n_.text()[:50] for n_ in gg1.real_nodes() if n_.kind in ('stmt', 'return', 'raisestmt') and
+              not gg1.held_withs(n_, '_lock') and any(isinstance(x, (ast.Subscript, ast.Call)) for x in n_.walk())]
+    ctx.ob('C11.R3', 'get_one evaluates the index entry under the lock', not loose1,
+           'IndexDefinition.get_one fetches and evaluates the entry inside `with self._lock`' if not loose1 else
+           f'IndexDefinition.get_one works on the fetched list outside the table lock ({loose1[:2]}): update_object empties and '
+           f'refills that list under the lock - a concurrent reader gets IndexError for a key that exists throughout', fi=go1)
+    mki = mk.methods['_mk_indices']
+    inner_types, outer = set(), None
+    for t_ in [x for x in walk_no_nested(mki.node) if isinstance(x, ast.Try)]:
+        for h in t_.handlers:
+            if any(isinstance(x, ast.Raise) for b in h.body for x in ast.walk(b)):
+                outer = h
+            else:
+                inner_types |= {unparse(e).split('.')[-1] for e in (h.type.elts if isinstance(h.type, ast.Tuple) else [h.type])} \
+                    if h.type is not None else {'BaseException'}
+    if outer is None:
+        raise AnalysisError('C11.R1: the roll-back handler of _mk_indices was not found')
+    undo = [c for b in outer.body for c in ast.walk(b) if isinstance(c, ast.Call) and isinstance(c.func, ast.Attribute)]
+    per_obj = [c for c in undo if c.func.attr == 'rm_key' and len(c.args) == 2]
+    blunt = [unparse(c)[:50] for c in undo if c.func.attr in ('pop', 'clear', 'popitem', '__delitem__')] + \
+            [unparse(d)[:50] for b in outer.body for d in ast.walk(b) if isinstance(d, ast.Delete)]
+    ctx.ob('C11.R1', 'roll-back removes only the rejected object', bool(per_obj) and not blunt,
+           'the roll-back of a rejected insert takes the object out of the index entries it had entered (rm_key(key, obj))'
+           if per_obj and not blunt else
+           f'the roll-back of a rejected insert drops whole index entries ({blunt}): the other objects stored under the same key of '
+           f'a non-unique index (all context states of the descriptor) disappear from that lookup', fi=mki)
+    # what a unique index raises to refuse an object is not one of the exception types that _mk_indices takes for "this index does
+    # not apply to the object" and swallows
+    for q_, fi_ in sorted(repo.funcs.items()):
+        if not (q_.startswith('sdc11073.multikey.') and fi_.name == 'mk_keys'):
+            continue
+        raised = {call_name(r.exc) if isinstance(r.exc, ast.Call) else unparse(r.exc) for r in walk_no_nested(fi_.node)
+                  if isinstance(r, ast.Raise) and r.exc is not None}
+        lost = sorted(raised & inner_types)
+        if raised:
+            ctx.ob('C11.R1', f'{fi_.cls.name}.mk_keys: refusals reach the caller', not lost,
+                   f'{fi_.cls.name}.mk_keys refuses with {sorted(raised)}, none of which _mk_indices swallows' if not lost else
+                   f'{fi_.cls.name}.mk_keys refuses an object with {lost}, which _mk_indices swallows as "index does not apply": the '
+                   f'object is added to the table and to the other indices, the unique lookup does not know it', fi=fi_)
     keys_all = {attr for tbl in index_key_attrs(repo).values() for (attr, _kind) in tbl.values() if attr}
     n_add = 0
     for q_, fi_ in sorted(repo.funcs.items()):
